@@ -39,8 +39,12 @@ pub(crate) struct CommitOracle {
 }
 
 struct OracleInner {
-	// xxh3_64(key) -> commit_seq of the most recent writer of that key.
-	recent_writes: HashMap<u64, u64>,
+	// xxh3_64(key) -> (commit_seq of the most recent writer of that key,
+	// the stamp that writer displaced, 0 if there was none). The displaced
+	// stamp is what `rollback` puts back: if the most recent writer's commit
+	// fails, the writer before it is again the one later commits must be
+	// validated against.
+	recent_writes: HashMap<u64, (u64, u64)>,
 
 	// The smallest seq still represented in the map: every commit at
 	// `seq >= kept_since` is recorded. A txn with `start_seq < kept_since`
@@ -100,7 +104,7 @@ impl CommitOracle {
 			return Err(Error::TransactionRetry);
 		}
 		for k in keys {
-			if let Some(&committed) = g.recent_writes.get(&fp(k)) {
+			if let Some(&(committed, _)) = g.recent_writes.get(&fp(k)) {
 				if committed > start_seq {
 					return Err(Error::TransactionWriteConflict);
 				}
@@ -131,7 +135,18 @@ impl CommitOracle {
 		let mut g = self.inner.lock();
 		let stamp = seq_num + count - 1;
 		for k in keys {
-			g.recent_writes.insert(fp(k), stamp);
+			let fk = fp(k);
+			// A key repeated within the batch already carries our stamp: keep
+			// the displaced stamp recorded by its first occurrence.
+			match g.recent_writes.get(&fk) {
+				Some(&(cur, _)) if cur == stamp => {}
+				Some(&(cur, _)) => {
+					g.recent_writes.insert(fk, (stamp, cur));
+				}
+				None => {
+					g.recent_writes.insert(fk, (stamp, 0));
+				}
+			}
 		}
 
 		// `saturating_add` so the counter doesn't overflow if the watermark
@@ -168,17 +183,19 @@ impl CommitOracle {
 			}
 			g.commits_since_gc = 0;
 			g.kept_since = oldest_active;
-			g.recent_writes.retain(|_, v| *v >= oldest_active);
+			g.recent_writes.retain(|_, v| v.0 >= oldest_active);
 		}
 	}
 
 	/// Roll back oracle entries reserved by a transaction whose commit
 	/// path failed AFTER `publish` (typically because `apply` errored).
 	///
-	/// Removes entries only when their stamp still equals `my_seq` — i.e.
+	/// Reverts entries only when their stamp still equals `my_seq` — i.e.
 	/// when *we* are still the most recent writer of that fingerprint. If
 	/// a concurrent transaction has already overwritten an entry with a
-	/// higher seq, leaves it alone (their stamp wins).
+	/// higher seq, leaves it alone (their stamp wins). Reverting puts back
+	/// the stamp our publish displaced: the commit that wrote it did happen,
+	/// and a transaction that began before it must still conflict with it.
 	///
 	/// Soundness (live process only): removing our entry cannot cause a
 	/// subsequent commit to miss a *real* conflict in this process — the
@@ -201,9 +218,13 @@ impl CommitOracle {
 		let mut g = self.inner.lock();
 		for k in keys {
 			let fk = fp(k);
-			if let Some(&v) = g.recent_writes.get(&fk) {
+			if let Some(&(v, displaced)) = g.recent_writes.get(&fk) {
 				if v == my_seq {
-					g.recent_writes.remove(&fk);
+					if displaced != 0 && displaced >= g.kept_since {
+						g.recent_writes.insert(fk, (displaced, 0));
+					} else {
+						g.recent_writes.remove(&fk);
+					}
 				}
 			}
 		}
